@@ -43,6 +43,8 @@ def build(ck):
     ck.bound("E1 grids (D,N): " + ", ".join(map(str, grids)) + "; every wavenumber vector of each grid; amplitude and phase symbolic; L symbolic")
     ck.bound("E2: all N in [1,4096] for the wavenumber kernel (f32,f64), oddball cut-off; mode blocks: all N_small < N_big (unbounded ints, parity split)")
     ck.assume("real arithmetic for array kernels; get_fourier_coefficients checked with round=None (rounding is a display convenience)")
+    if _want(ck, "grid/point-count"):
+        _grid_point_count(ck)
     for D, N in grids:
         if _want(ck, f"roundtrip/D{D}N{N}"):
             _roundtrip(ck, D, N)
@@ -90,7 +92,24 @@ def _grid(ck, D, N):
             continue
         tag = f"grid/D{D}N{N}/full={full}/centred={centred}/{indexing}"
         ins = [In("L", (), lo=0.5, hi=3.0)]
-        enc = Encoded(lambda L: ex.make_grid(D, L, N, full=full, zero_centered=centred, indexing=indexing), ins, tag="g")
+        try:
+            enc = Encoded(lambda L: ex.make_grid(D, L, N, full=full, zero_centered=centred, indexing=indexing), ins, tag="g")
+        except Exception as ex_:  # noqa  (e.g. the grid needs a concrete extent): fall back to a concrete extent, same oracle
+            ck.notes.append(f"{tag}: make_grid cannot be traced with a symbolic domain extent ({type(ex_).__name__}); the grid is checked at the concrete extent 1.3 instead")
+            L0 = 1.3
+            g = np.asarray(ex.make_grid(D, L0, N, full=full, zero_centered=centred, indexing=indexing))
+            npts = N + 1 if full else N
+            okshape = tuple(g.shape) == (D,) + (npts,) * D
+            worst = float("inf")
+            if okshape:
+                worst = 0.0
+                for idx in np.ndindex((npts,) * D):
+                    for d in range(D):
+                        ax = (1 - d) if (indexing == "xy" and d < 2) else d
+                        worst = max(worst, abs(g[(d,) + idx] - (idx[ax] / N * L0 - (0.5 * L0 if centred else 0.0))))
+            ck.add(f"{tag}/concrete-extent", bool(okshape and worst < 1e-12), [], family="make_grid (concrete extent)",
+                   replay=lambda m, g=g, worst=worst, npts=npts: {"reproduced": True, "detail": f"make_grid(D={D}, L=1.3, N={N}, full={full}, zero_centered={centred}, indexing={indexing!r}) has shape {tuple(g.shape)} (documented {(D,) + (npts,) * D}), max deviation from j L/N: {worst:.3g}"})
+            continue
         enc.validate(ck, what=tag, max_components=8)
         L = ins[0].s
         npts = N + 1 if full else N
@@ -106,6 +125,25 @@ def _grid(ck, D, N):
                     v = sym.rsub(v, sym.rmul(orc.fl(Fraction(1, 2)), L))
                 orac[(d,) + idx] = v
         enc.compare(ck, tag, 0, orac, [L > 0], family="make_grid")
+
+
+def _grid_point_count(ck):
+    """concrete enumeration (not a solver verdict): the grid has exactly N (N+1 with full=True) points per axis, starts at 0,
+    stays below L and has spacing L/N, for every N up to 300 and a set of extents -- a float-step construction such as
+    arange(0, L, L/N) yields N+1 points for particular (L, N)"""
+    import math
+
+    bad = []
+    for L0 in (1.0, 2.0, 3.0, 5.0, 2 * math.pi, 10.0, 60.0, 100.0):
+        for N in range(1, 301):
+            g = np.asarray(ex.make_grid(1, L0, N))
+            if g.shape != (1, N) or g[0, 0] != 0.0 or not (g[0, -1] < L0) or abs(g[0, -1] - (N - 1) * L0 / N) > 1e-12 * L0:
+                bad.append((L0, N, tuple(g.shape)))
+            gf = np.asarray(ex.make_grid(1, L0, N, full=True))
+            if gf.shape != (1, N + 1) or abs(gf[0, -1] - L0) > 1e-12 * L0:
+                bad.append((L0, N, "full", tuple(gf.shape)))
+    ck.add("grid/point-count/N<=300", not bad, [], family="make_grid: N points per axis, left-inclusive / right-exclusive (concrete enumeration)",
+           replay=lambda m: {"reproduced": True, "detail": f"make_grid returns a wrong number of points / end point for (L, N, ...) in {bad[:6]}"})
 
 
 def _field(D, N, m, A, B, indexing="ij"):
